@@ -175,3 +175,198 @@ def foreign_subtree(rng, max_nodes=8):
         budget -= size(k)
         n[3].append(k)
     return n
+
+
+# ------------------------------------------------------------------ history sensitivity
+# The Coq models are pure functions of (tables, tree); "validation is stateless" is an assumption of
+# every theorem.  These helpers validate the SAME node objects repeatedly — twice in collecting mode,
+# fail-fast in between, with an error list that already holds another node's entries, after in-place
+# edits and after undoing them — and require each result to equal the result on a freshly built
+# identical tree.
+
+def node_paths(root):
+    out = {}
+
+    def go(n, p):
+        out[id(n)] = p
+        for i, c in enumerate(n.children):
+            go(c, p + (i,))
+    go(root, ())
+    return out
+
+
+def canon_entry(e, paths):
+    try:
+        return [e[0].name, e[1], list(paths.get(id(e[2]), ("?",))), repr(e[3:])]
+    except Exception:  # noqa
+        return ["MALFORMED-ENTRY", repr(e)]
+
+
+def run_ff(fn):
+    try:
+        fn(None)
+        return ["OK", ""]
+    except Exception as ex:  # noqa
+        return [type(ex).__name__, str(ex)]
+
+
+def run_collect(fn, paths, prefill=None):
+    """collected entries (canonical). With prefill: the list handed in already holds those entries;
+    returns only what was appended, or a marker if the existing entries were disturbed."""
+    errs = list(prefill) if prefill else []
+    n0 = len(errs)
+    try:
+        fn(errs)
+    except Exception as ex:  # noqa
+        return [canon_entry(e, paths) for e in errs[n0:]] + [["RAISED:" + type(ex).__name__, str(ex)]]
+    if prefill and (len(errs) < n0 or any(a is not b for a, b in zip(errs[:n0], prefill))):
+        return [["PREFIX-DISTURBED", repr(errs[:n0])]]
+    return [canon_entry(e, paths) for e in errs[n0:]]
+
+
+def fresh_result(t, call):
+    """(ff, collected) of validate.<call> on a freshly built tree."""
+    from harness import rulelib as RL
+    from metapype.eml import validate
+    root = RL.build_tree(t)
+    fn = getattr(validate, call)
+    paths = node_paths(root)
+    return run_ff(lambda e: fn(root, e)), run_collect(lambda e: fn(root, e), paths)
+
+
+def foreign_entries():
+    """what a caller's list may already hold: the entries of another, unrelated node"""
+    from metapype.eml import validate
+    from metapype.model.node import Node
+    errs = []
+    other = Node("zzSomeOtherNode", content="x")
+    validate.node(other, errs)
+    bad = Node("title", content=None)
+    bad.add_attribute("zzAttr", "1")
+    validate.node(bad, errs)
+    return errs
+
+
+def _edit_in_place(rng, t, root, pool):
+    """One in-place edit applied to the plain tree t and to the live tree root alike.
+    Returns (description, undo) where undo() reverts both."""
+    from metapype.model.node import Node
+    nodes = list(walk(t))
+    p, n = rng.choice(nodes)
+    live = root
+    for i in p:
+        live = live.children[i]
+    op = rng.choice(["content", "content", "attr+", "attr-", "drop", "add", "rename"])
+    if op == "content":
+        old = n[1]
+        new = rng.choice([x for x in pool if x != old])
+        n[1] = new
+        live.content = new
+
+        def undo():
+            n[1] = old
+            live.content = old
+        return ["content", list(p), new], undo
+    if op == "attr+":
+        key = rng.choice(["zzAttr", "id", "scope", "system", "lang", "function"])
+        if key in [a[0] for a in n[2]]:
+            return None, None
+        val = rng.choice([x for x in pool if x is not None])
+        n[2].append([key, val])
+        live.add_attribute(key, val)
+
+        def undo():
+            n[2].pop()
+            live.remove_attribute(key)
+        return ["attr+", list(p), key, val], undo
+    if op == "attr-" and n[2]:
+        i = rng.randrange(len(n[2]))
+        if i != len(n[2]) - 1:
+            return None, None          # keep dict order identical after undo: only the last attribute is removed
+        key, val = n[2].pop()
+        live.remove_attribute(key)
+
+        def undo():
+            n[2].append([key, val])
+            live.add_attribute(key, val)
+        return ["attr-", list(p), key], undo
+    if op == "drop" and n[3]:
+        i = rng.randrange(len(n[3]))
+        sub = n[3].pop(i)
+        lsub = live.children[i]
+        live.remove_child(lsub)
+
+        def undo():
+            n[3].insert(i, sub)
+            live.add_child(lsub, index=i)
+        return ["drop", list(p), i], undo
+    if op == "add":
+        name = rng.choice(["title", "para", "zzNew", "metadata", n[0]])
+        i = rng.randrange(len(n[3]) + 1)
+        sub = [name, rng.choice(pool[:8]), [], []]
+        lsub = Node(name, content=sub[1])
+        n[3].insert(i, sub)
+        live.add_child(lsub, index=i)
+
+        def undo():
+            n[3].pop(i)
+            live.remove_child(lsub)
+        return ["add", list(p), i, name], undo
+    if op == "rename":
+        old = n[0]
+        new = rng.choice(["zzRenamed", "metadata", "title", "para"])
+        if new == old:
+            return None, None
+        n[0] = new
+        live.name = new
+
+        def undo():
+            n[0] = old
+            live.name = old
+        return ["rename", list(p), new], undo
+    return None, None
+
+
+def history_problems(rng, t, call="tree", pool=CONTENT_POOL, n_edits=2):
+    """Returns a list of (step, what, details) where the result on the SAME objects differs from the
+    result on a freshly built identical tree. t is not modified."""
+    from harness import rulelib as RL
+    from metapype.eml import validate
+    from metapype.model.node import Node
+    t = copy.deepcopy(t)
+    fn = getattr(validate, call)
+    problems = []
+    steps = []
+
+    def compare(step, got, want, kind):
+        steps.append(step)
+        if got != want:
+            problems.append((step, f"validate.{call} on the same objects ({' -> '.join(steps)}) gave a different {kind} than on a freshly built identical tree",
+                             {"kind": "impl-vs-statement", "call": "validate." + call, "tree": copy.deepcopy(t), "history": list(steps),
+                              "observed": got, "expected_from_fresh_tree": want}))
+    want_ff, want_col = fresh_result(t, call)
+    root = RL.build_tree(t)
+    paths = node_paths(root)
+    compare("collect", run_collect(lambda e: fn(root, e), paths), want_col, "error list")
+    compare("collect-again", run_collect(lambda e: fn(root, e), paths), want_col, "error list")
+    compare("fail-fast", run_ff(lambda e: fn(root, e)), want_ff, "fail-fast outcome")
+    compare("collect-into-non-empty-list", run_collect(lambda e: fn(root, e), paths, prefill=foreign_entries()), want_col, "appended error list")
+    compare("fail-fast-again", run_ff(lambda e: fn(root, e)), want_ff, "fail-fast outcome")
+    for _ in range(n_edits):
+        desc, undo = None, None
+        for _attempt in range(8):
+            desc, undo = _edit_in_place(rng, t, root, pool)
+            if desc is not None:
+                break
+        if desc is None:
+            break
+        for label, action in (("edit:" + desc[0], None), ("undo:" + desc[0], undo)):
+            if action is not None:
+                action()
+            want_ff, want_col = fresh_result(t, call)
+            paths = node_paths(root)
+            compare(label + "/collect", run_collect(lambda e: fn(root, e), paths), want_col, "error list")
+            compare(label + "/fail-fast", run_ff(lambda e: fn(root, e)), want_ff, "fail-fast outcome")
+            compare(label + "/collect-again", run_collect(lambda e: fn(root, e), paths), want_col, "error list")
+    Node.store.clear()
+    return problems
